@@ -258,6 +258,14 @@ func (fc *funcContext) translateFunctionBody(typ *ast.FuncType, recv *ast.Ident,
 			if isWrapped(fc.typeOf(recv)) {
 				this = "this.$val" // Unwrap receiver value.
 			}
+			switch fc.typeOf(recv).Underlying().(type) {
+			case *types.Struct, *types.Array:
+				// A value receiver is the method's own copy. Direct calls pass a copy
+				// already, but calls through an interface (holding the value or a
+				// pointer to it), through promoted methods and through bound method
+				// values hand over the original object.
+				this = fmt.Sprintf("$clone(%s, %s)", this, fc.typeName(fc.typeOf(recv)))
+			}
 			fc.Printf("%s = %s;", fc.translateExpr(recv), this)
 		}
 
